@@ -262,7 +262,7 @@ func checkRendered(c Case, want []*hx.N) error {
 			if undefAt < 0 {
 				undefAt, undefText = i, go_[i].Text
 			} else if go_[i].Text != undefText {
-				return fmt.Errorf("marker #%d %s prints %q and marker #%d %s prints %q, but both read a name that is absent in their scope (a slot prop that is nil / unresolved for this use, or a never-defined control name): a value from another use of the slot leaked\noutput: %s\n%s",
+				return fmt.Errorf("marker #%d %s prints %q and marker #%d %s prints %q, but both read a name that is not bound in the scope of that content (a slot prop that is nil / unresolved for this use, a name that only the component binds, or the never-defined control name): a value leaked in from the component's scopes or from another use of the slot\noutput: %s\n%s",
 					undefAt, go_[undefAt].ID, undefText, i, go_[i].ID, go_[i].Text, got, describe(c))
 			}
 		case go_[i] != wo[i]:
@@ -313,12 +313,24 @@ func TestProp(t *testing.T) {
 	// cross-feature compositions checked against the shared reference interpreter
 	compose.Family(t, rec, "slot")
 	known := kf.Load()
+	// C06_LIFT=id,id lifts the exclusion of open findings (development aid: run the full domain
+	// against a tree in which a candidate repair is applied)
+	if lift := os.Getenv("C06_LIFT"); lift != "" {
+		var kept []kf.Finding
+		for _, f := range known.Findings {
+			if !strings.Contains(","+lift+",", ","+f.ID+",") {
+				kept = append(kept, f)
+			}
+		}
+		known.Findings = kept
+	}
 	ex := exclusions{
 		destructure:  known.Open("C06-destructured-slot-props-empty"),
 		frozen:       known.Open("C06-include-in-slot-content-frozen"),
 		tmplRoot:     known.Open("C06-template-root-evaluated-twice"),
 		shortNested:  known.Open("C06-shorthand-tag-in-slot-content-not-resolved"),
 		layoutDirect: known.Open("C06-layout-file-slot-props-not-bound"),
+		compScope:    known.Open("C06-slot-content-sees-component-scope"),
 		layoutLeak:   known.Open("C06-layout-leaks-instance-slot-content"),
 	}
 
